@@ -21,6 +21,11 @@ CHECKS = {
    note="Histories contain only protocol-legal operations (error paths are not claimed). Element types are abstract tags (int/bool/fn/void/ref/type/iface/slice). Bounded: nesting <= 6 exhaustively (<= 10 by simulation), 6-9 operations exhaustively (60-80 by simulation). Trusted: TLC, go/types scopes as identity of lexical scopes.",
    technique="TLA+ spec + TLC exhaustive history enumeration/simulation + per-step replay on the real CodeBuilder",
    design_ref="DESIGN.md section 5 C16"),
+ "C10": dict(level="model_checking",
+   text="Flow.tla transcribes the Go specification's terminating-statement analysis (Term/TermList/HasBreak) and label rules over the statement tree a client builds with statement-level builder operations, and TLC enumerates every complete function body of the bounded configurations (full alphabet to 5 operations; construct families to 7-8: loops+switch+labelled break, if/else/block/panic/shadowed panic, select, labels+goto+closures, type switch+fallthrough) with the diagnostics Go requires. Each body is built through the real CodeBuilder and the missing-return / unused-label / duplicate-label diagnostics delivered to HandleErr are compared with the prediction; go/types on an independent rendering of the same operations validates the specification on every body (S = T, else exit 2).",
+   note="Jumps are generated towards legal targets only. For a label defined twice only the duplicate diagnostic is compared. Bounded by MaxOps/MaxNest/MaxItems of each configuration. Trusted: TLC, go/types (as validator of the specification), the renderer.",
+   technique="TLA+ spec of Go's terminating-statement rules + TLC exhaustive enumeration + replay on the real CodeBuilder, go/types cross-validation of the spec",
+   design_ref="DESIGN.md section 5 C10"),
 }
 
 def sh(cmd):
